@@ -224,6 +224,19 @@ def print_assumptions(pid, names, timeout=300):
     return res, ""
 
 
+def coqchk(pid, timeout=1800):
+    """Independent re-check of the property's compiled closure; lists the axioms it relies on."""
+    rc, out, err = sh(["coqchk", "-silent", "-o"] + coq_flags() + ["GAProp.%s" % pid], timeout, cwd=COQ)
+    text = out + err
+    axioms = []
+    m = re.search(r"\* Axioms:\s*(.*?)(?:\n\s*\*|\Z)", text, re.S)
+    if m:
+        body = m.group(1).strip()
+        if not body.startswith("<none>"):
+            axioms = [l.strip() for l in body.split("\n") if l.strip()]
+    return {"ok": rc == 0 and not axioms, "rc": rc, "axioms": axioms, "tail": text[-400:]}
+
+
 # ---------------------------------------------------------------- model runner
 
 def model_build():
@@ -397,6 +410,9 @@ def main(argv):
     hits = forbidden_scan()
     if hits:
         problems.append({"kind": "forbidden", "what": hits[:20]})
+    import pin
+    for msg in pin.compare(pid):
+        problems.append({"kind": "proof", "what": {"pinned": msg}})
     targets = ["properties/%s.vo" % pid, "extract/Extract.vo"] + P.get("extra_vo", [])
     with Lock():
         gen.gen_corr()
@@ -436,6 +452,11 @@ def main(argv):
     if not names:
         problems.append({"kind": "proof", "what": "no property theorems found for %s" % pid})
     ev["theorems"] = assum
+    if tier == "thorough" and ok:
+        ck = coqchk(pid)
+        ev["coqchk"] = ck
+        if not ck.get("ok"):
+            problems.append({"kind": "proof", "what": {"coqchk": ck}})
     if exe_model is None:
         problems.append({"kind": "model-build", "what": merr})
 
@@ -544,6 +565,7 @@ def main(argv):
         "samples": samples or [{"note": "no correspondence cases in this run"}],
         "theorems": assum,
         "regen": rg,
+        "coqchk": ev.get("coqchk", "quick tier: not run (thorough tier re-checks the compiled closure with coqchk -o)"),
         "runs": ev["runs"],
         "input_distribution": dist_all,
         "problems": [p for p in problems][:20],
